@@ -79,6 +79,8 @@ type GenOpts struct {
 	Biases       []string // allowed biases (nil = all six)
 	MinBiases    int
 	MaxBiases    int
+	BiasLikeIds  bool // the arbitrary-string ids include names the biases generate themselves (__concealedCriterion__)
+	PlainIds     bool // ids c<n> / a<n> only (default: one request in eight has some arbitrary-string ids)
 	BigTiers     bool // one request in 16 has 8-20 alternatives and up to 12 criteria, one in 1024 has 65-70 alternatives
 	MinAlts      int  // default 1
 	MaxAlts      int  // default 7
@@ -241,6 +243,43 @@ func (s *genState) genProblem(req M) {
 	s.altIds = nil
 	for i := 0; i < na; i++ {
 		s.altIds = append(s.altIds, fmt.Sprintf("a%d", ap[i]+1)) // unpadded: "a10" < "a2" as strings
+	}
+	if !o.PlainIds && g.Rare(3) {
+		// ids are arbitrary strings: blanks, non-ASCII letters, other letter case, digits only, ids that look like the
+		// names biases generate, ids of the other kind (a criterion called a1); never empty, never with a comma
+		// (Choquet capacity keys are comma-separated id lists)
+		exoticC := []string{" c1", "c 1", "C1", "ć1", "__concealedCriterion__", "__c1+c2__", "1", "c1_", "a1", "c01", "criterion-with-a-rather-long-identifier-0123456789", "c1\\t", "\"q\""}
+		exoticA := []string{" a1", "a 1", "A1", "ä1", "1", "c1", "a1 ", "a01", "alternative-with-a-rather-long-identifier-0123456789", "a+b", "\"q\""}
+		if !o.BiasLikeIds {
+			// oracles that look a criterion's declared weight or range up by id cannot tell a declared
+			// __concealedCriterion__ that was omitted from the bias-made criterion that then takes its name
+			var keep []string
+			for _, x := range exoticC {
+				if !strings.HasPrefix(x, "__") {
+					keep = append(keep, x)
+				}
+			}
+			exoticC = keep
+		}
+		replaceSome := func(ids []string, pool []string) {
+			used := map[string]bool{}
+			for _, id := range ids {
+				used[id] = true
+			}
+			for i := range ids {
+				if !g.Bool() {
+					continue
+				}
+				x := pool[g.Int(0, len(pool)-1)]
+				if !used[x] {
+					used[x] = true
+					ids[i] = x
+				}
+			}
+		}
+		replaceSome(s.critIds, exoticC)
+		replaceSome(s.altIds, exoticA)
+		s.label("exoticIds")
 	}
 	mode := o.ValueMode
 	if mode < 0 {
